@@ -33,10 +33,79 @@ type hashChain struct {
 
 func (h hashChain) String() string { return h.Encoding + "(" + h.Hash + "(" + h.Serial + "))" }
 
-// digestChain analyses a []byte value expected to be sha256.Sum256(spki)[:].
+// streamingDigest recognises h := sha256.New(); h.Write(in); h.Sum(nil) and
+// returns the constructor's name and the single value written.
+func streamingDigest(v ssa.Value) (hash string, in ssa.Value, why string) {
+	sum, ok := v.(*ssa.Call)
+	if !ok || !sum.Common().IsInvoke() || "Sum" != sum.Common().Method.Name() {
+		return "", nil, ""
+	}
+	if a := sum.Common().Args[0]; !isNilConst(a) {
+		if ms, ok := a.(*ssa.MakeSlice); !ok || !isZeroConst(ms.Len) {
+			return "", nil, "Sum is given a non-empty prefix"
+		}
+	}
+	h := resolveCell(sum.Common().Value)
+	ctor, ok := h.(*ssa.Call)
+	if !ok {
+		return "", nil, "the hash object is not made in this function"
+	}
+	var writes []ssa.Value
+	bad := ""
+	eachInstr(sum.Parent(), func(i ssa.Instruction) {
+		c := callCommon(i)
+		if nil == c || i == ssa.Instruction(sum) || i == ssa.Instruction(ctor) {
+			return
+		}
+		uses := false
+		if c.IsInvoke() && resolveCell(c.Value) == h {
+			uses = true
+		}
+		for _, a := range c.Args {
+			if resolveCell(stripConv(a, false)) == h {
+				uses = true
+			}
+		}
+		if !uses {
+			return
+		}
+		if c.IsInvoke() && "Write" == c.Method.Name() && resolveCell(c.Value) == h && instrDominates(i, sum) && !canReach(locOf(i), i) {
+			writes = append(writes, c.Args[0])
+			return
+		}
+		bad = "the hash object is used by " + calleeName(c)
+	})
+	switch {
+	case "" != bad:
+		return "", nil, bad
+	case 1 != len(writes):
+		return "", nil, fmt.Sprintf("%d writes into the hash, one expected", len(writes))
+	}
+	name := calleeName(ctor.Common())
+	if "crypto/sha256.New" == name {
+		name = "crypto/sha256.Sum256" /* the same function of the input */
+	}
+	return name, writes[0], ""
+}
+
+func isZeroConst(v ssa.Value) bool {
+	k, ok := constInt(v)
+	return ok && 0 == k
+}
+
+// digestChain analyses a []byte value expected to be sha256.Sum256(spki)[:]
+// (or the streaming equivalent).
 func digestChain(v ssa.Value) hashChain {
 	var hc hashChain
 	v = stripConv(v, false)
+	if name, in, why := streamingDigest(v); "" != name || "" != why {
+		if "" != why {
+			hc.Err = why
+			return hc
+		}
+		hc.Hash = name
+		return serialOf(hc, in)
+	}
 	sl, ok := v.(*ssa.Slice)
 	if !ok {
 		hc.Err = "digest is not a slice of a hash array"
@@ -62,8 +131,12 @@ func digestChain(v ssa.Value) hashChain {
 		return hc
 	}
 	hc.Hash = calleeName(hcall.Common())
-	in := hcall.Common().Args[0]
-	switch x := stripConv(in, false).(type) {
+	return serialOf(hc, hcall.Common().Args[0])
+}
+
+// serialOf fills in what is hashed.
+func serialOf(hc hashChain, in ssa.Value) hashChain {
+	switch x := stripConv(resolveCell(in), false).(type) {
 	case *ssa.Extract:
 		c, ok := x.Tuple.(*ssa.Call)
 		if !ok || 0 != x.Index {
@@ -330,7 +403,7 @@ func fingerprintChain(p *Prog, r *Report, ru *Rule, fn *ssa.Function, depth int)
 				return
 			}
 		}
-		v := retVal(ret, 0)
+		v := stripConv(retVal(ret, 0), true)
 		var call *ssa.Call
 		if ex, ok := v.(*ssa.Extract); ok {
 			call, _ = ex.Tuple.(*ssa.Call)
@@ -353,13 +426,29 @@ func fingerprintChain(p *Prog, r *Report, ru *Rule, fn *ssa.Function, depth int)
 			out = fingerprintChain(p, r, ru, sc, depth+1)
 			return
 		}
-		if "(*encoding/base64.Encoding).EncodeToString" != calleeName(call.Common()) {
+		var digest ssa.Value
+		switch calleeName(call.Common()) {
+		case "(*encoding/base64.Encoding).EncodeToString":
+			digest = call.Common().Args[1]
+		case "(*encoding/base64.Encoding).AppendEncode":
+			/* string(enc.AppendEncode(<empty>, digest)) */
+			dst := call.Common().Args[1]
+			empty := isNilConst(dst)
+			if ms, ok := dst.(*ssa.MakeSlice); ok && isZeroConst(ms.Len) {
+				empty = true
+			}
+			if !empty {
+				ru.Bad(c, posOf(call), "the encoded pin is appended to a non-empty prefix")
+				return
+			}
+			digest = call.Common().Args[2]
+		default:
 			ru.Bad(c, posOf(call), "the fingerprint is produced by %s, not base64 encoding", calleeName(call.Common()))
 			return
 		}
-		hc := digestChain(call.Common().Args[1])
+		hc := digestChain(digest)
 		hc.Encoding = "other"
-		if globalLoad(call.Common().Args[0], "encoding/base64", "StdEncoding") {
+		if isStdEncoding(p, call.Common().Args[0]) {
 			hc.Encoding = "base64.StdEncoding"
 		}
 		out = hc
@@ -640,3 +729,37 @@ func checkPinTemplate(p *Prog, r *Report, ru *Rule) {
 }
 
 var _ = types.Universe
+
+// isStdEncoding: v is base64.StdEncoding, directly or through a package
+// variable of the module initialised with it and never reassigned.
+func isStdEncoding(p *Prog, v ssa.Value) bool {
+	if globalLoad(v, "encoding/base64", "StdEncoding") {
+		return true
+	}
+	u, ok := stripConv(v, false).(*ssa.UnOp)
+	if !ok || token.MUL != u.Op {
+		return false
+	}
+	g, ok := u.X.(*ssa.Global)
+	if !ok || nil == g.Pkg || !strings.HasPrefix(g.Pkg.Pkg.Path(), ModPath) {
+		return false
+	}
+	n, okAll := 0, true
+	visit := func(fn *ssa.Function) {
+		eachInstr(fn, func(i ssa.Instruction) {
+			if st, ok := i.(*ssa.Store); ok && st.Addr == ssa.Value(g) {
+				n++
+				if !globalLoad(st.Val, "encoding/base64", "StdEncoding") {
+					okAll = false
+				}
+			}
+		})
+	}
+	if ini := g.Pkg.Func("init"); nil != ini {
+		visit(ini)
+	}
+	for _, fn := range p.Funcs() {
+		visit(fn)
+	}
+	return 1 == n && okAll
+}
